@@ -214,6 +214,17 @@ theorem stale_count_reported (w : World) (fn : Nat) (hr : w.clkRunning = true) (
   rw [h4, hjs]
   rfl
 
+/-- … and these reports are the `stale` events of the bookkeeping: the tick adds exactly
+`|stale-classified messages of j|` stale events to the log of each running transceiver `j`. -/
+theorem stale_events_match_report (w0 : World) (ops : List Op) (j : Nat) (h0 : queueOf w0 j = []) (fn : Nat)
+    (hr : (run w0 ops).1.clkRunning = true) (hs : (run w0 ops).1.clkSrc = some fn)
+    (hrun : runningOf (run w0 ops).1 j = true) (hx : (step (run w0 ops).1 Op.tick).exc = none) :
+    (((ghost w0 (ops ++ [Op.tick]) j).log.drop (ghost w0 ops j).log.length).countP isStaleEv) =
+      ((queueOf (run w0 ops).1 j).filter (fun m => classify fn m == .stale)).length := by
+  rw [(ghost_tick_complete w0 ops j h0 hr hs hrun hx).1]
+  simp only [List.drop_left]
+  exact countP_stale_tickEvents fn _ _ (ghost_inv w0 ops j h0).lock
+
 /-- `poweroff_clears`: a POWEROFF command (any datagram that carries the request `POWEROFF`) to
 transceiver `i` empties the queue of every transceiver `j` it acts on — `i` itself, and the children
 of a managing parent (`powerList`) — and stops it; every id that was queued there gets `cleared`,
@@ -311,6 +322,31 @@ theorem eventually_resolved (w0 : World) (ops ops2 : List Op) (j : Nat) (h0 : qu
     fun hn ht => resolve_passed w0 j h0 p m hm ops2 ops c hst hp hc ?_ ht⟩
   omega
 
+/-- `eventually_resolved`, from the moment of acceptance: the datagram `d` accepted by `j` as `msg`
+(frame `m`) at clock value `c` gets id `ops.length`; if `j` stays powered on and the clock runs, it is
+emitted in frame `m` within `((m − c) mod 2715648) + 1` ticks when due or ahead, and reported stale at
+the very next tick otherwise. -/
+theorem accepted_eventually_resolved (w0 : World) (ops ops2 : List Op) (j : Nat) (h0 : queueOf w0 j = [])
+    (d : List Nat) (msg : Trxd.TxMsg) (hacc : Accepts (run w0 ops).1 j d msg)
+    (m c : Nat) (hm : msg.fn = some (m : Int)) (hmH : m < 2715648)
+    (hc : (run w0 ops).1.clkSrc = some c) (hcH : c < 2715648)
+    (hst : Steady j (run w0 (ops ++ [Op.data j d])).1 ops2) :
+    ((m = c ∨ ((c : Int) - m) % 2715648 ≥ 1357824) →
+      ticks ops2 ≥ (((m : Int) - c) % 2715648).toNat + 1 →
+      Event.emitted ops.length m ∈ (ghost w0 (ops ++ [Op.data j d] ++ ops2) j).log) ∧
+    (¬ (m = c ∨ ((c : Int) - m) % 2715648 ≥ 1357824) →
+      ticks ops2 ≥ 1 →
+      Event.stale ops.length c ∈ (ghost w0 (ops ++ [Op.data j d] ++ ops2) j).log) := by
+  obtain ⟨hq, hids⟩ := (accept_iff w0 ops j h0 d msg).2.1 hacc
+  have hl := (ghost_inv w0 ops j h0).lock
+  have hp : (ops.length, msg) ∈
+      (ghost w0 (ops ++ [Op.data j d]) j).ids.zip (queueOf (run w0 (ops ++ [Op.data j d])).1 j) := by
+    rw [hq, hids, List.zip_append hl]
+    simp
+  have hc' : (run w0 (ops ++ [Op.data j d])).1.clkSrc = some c := by
+    rw [run_snoc, (step_data_clk _ j d).1]; exact hc
+  exact eventually_resolved w0 (ops ++ [Op.data j d]) ops2 j h0 (ops.length, msg) hp m c hm hmH hc' hcH hst
+
 /-- `out_of_range_fn_stale`: `TxMsg.parse_msg` accepts any 32-bit frame number.  A queued burst
 with `fn = m ≥ 2715648` can never be due (the clock stays below the hyperframe); while `j` stays
 powered on it is reported stale — never emitted — at the latest at the tick whose frame number is
@@ -359,6 +395,22 @@ theorem interleaved_inv (s0 : State) (acts : List Act) (j : Nat) (h0 : Initial j
       Event.accepted p.1 p.2 ∈ (sghost s0 acts j).g.log) := by
   have h := (sghost_inv h0 acts).inv
   exact ⟨h.spec, h.lock, h.tagged⟩
+
+/-- the property's quantifier "one arrival / power command racing one tick": `a` clock actions, one
+socket action `x` (any data or TRXC datagram), `b` more clock actions — for every split `a`, `b` the
+invariant holds (instance of `interleaved_inv`) -/
+theorem one_op_racing_one_tick (s0 : State) (j : Nat) (h0 : Initial j s0) (a b : Nat) (x : Act) :
+    ExactlyOnce (fun m : Trxd.TxMsg => m.fn) (sghost s0 (clks a ++ [x] ++ clks b) j).g.log
+      ((sghost s0 (clks a ++ [x] ++ clks b) j).g.ids ++
+        ((sghost s0 (clks a ++ [x] ++ clks b) j).pendE ++
+         (sghost s0 (clks a ++ [x] ++ clks b) j).pendD).map Prod.fst) :=
+  (interleaved_inv s0 _ j h0).1
+
+/-- the same for every reachable state, in terms of the reachability relation -/
+theorem reachable_inv (s0 s : State) (j : Nat) (h0 : Initial j s0) (hr : Reachable s0 s) :
+    ∃ sg : SGhost, ∃ pos, SInv j pos s sg := by
+  obtain ⟨acts, rfl⟩ := hr
+  exact ⟨_, _, sghost_inv h0 acts⟩
 
 /-- under every schedule: at most one outcome per burst, never emitted twice -/
 theorem interleaved_outcome_unique (s0 : State) (acts : List Act) (j : Nat) (h0 : Initial j s0) :
